@@ -3,7 +3,7 @@
 (* big) and after (out) one of Clip / Simplify / RemoveEmpty, applied through Layers or through the Layer; want[i]  *)
 (* is the geometry id the per-geometry function (clip.Geometry on the box, the simplifier) returned when called      *)
 (* directly on a copy of feature i's geometry (0 = nil).  cls is the class vector the generator aimed for            *)
-(* (0 removed, 1 unchanged, 2 changed): a generator that misses its class is a fault of the generator.               *)
+(* (0 removed, 1 unchanged, 2 changed).                                                                            *)
 EXTENDS MvtLayer, TLC, Json, IOUtils
 Trace == ndJsonDeserialize(IOEnv.TRACE)
 VARIABLES l, bad
@@ -17,7 +17,8 @@ ClassOk(e) == \A i \in 1..Len(e.cls) :
 RVec(e) == IF e.op = "removeempty" THEN [i \in 1..Len(e.feats) |-> IF KeepNonEmpty(e.feats[i]) THEN e.feats[i].g ELSE 0]
            ELSE e.want
 Ok(e) == /\ e.k = "layer"
-         /\ Assert(ClassOk(e), <<"generator fault: geometry class", e>>)
+         /\ ClassOk(e)        \* the per-geometry function did to each input what its class was built for (outside: nothing
+                              \* left, inside: unchanged, crossing: changed); a miss is a rejection, not a machinery fault
          /\ Out(e) = FilterMap(In(e), RVec(e))
 Init == l = 1 /\ bad = {}
 Next == /\ l <= Len(Trace) /\ l' = l + 1
